@@ -2,8 +2,9 @@
 (* C06 soundness: kind "synth" - whatever circuit search returns obeys the request. *)
 EXTENDS JudgeCore
 
-(* node number of a label: inputs are "0".."n-1", gate with node number x is "s<x>" *)
-NodeLabel(n, x) == IF x < n THEN ToString(x) ELSE "s" \o ToString(x)
+(* node numbers of the request (inputs 0..n-1, gates n..n+r-1) are mapped to labels through the
+   order in which the returned circuit stores its gates (inputs first, then the gates in the
+   order they were added) - no assumption about how labels are spelled *)
 CodeOfGate(g) == TTCode(g.t)
 
 C06Fails(c) ==
@@ -11,9 +12,13 @@ C06Fails(c) ==
   ELSE IF c.result # "circuit" THEN {"find_circuit-raised:" \o c.result}
   ELSE
   LET ck == c.c   n == c.n   r == c.r
+      shape0 == Len(ck.ord) = n + r /\ Len(ck.i) = n /\ Cardinality(DOMAIN ck.g) = n + r /\ NoDup(ck.ord)
+                  /\ SeqSet(ck.ord) = DOMAIN ck.g
+      NodeLabel(nn, x) == ck.ord[x + 1]
       gates == [x \in n .. (n + r - 1) |-> NodeLabel(n, x)]
       nodeOf(l) == CHOOSE x \in 0 .. (n + r - 1) : NodeLabel(n, x) = l
-      shape == /\ ck.i = [j \in 1 .. n |-> NodeLabel(n, j - 1)]
+      shape == /\ shape0
+               /\ ck.i = [j \in 1 .. n |-> NodeLabel(n, j - 1)]
                /\ NonInputSet(ck) = {gates[x] : x \in n .. (n + r - 1)}
                /\ InputSet(ck) = {NodeLabel(n, x) : x \in 0 .. (n - 1)}
   IN IF ~shape THEN {"exactly-the-requested-number-of-gates-and-inputs"}
